@@ -30,6 +30,11 @@ def FieldName.toks : FieldName → Toks
   | .ident i => [⟨.plain i.name, i.sp⟩]
   | .index n => tq cs (ToString.toString n)            -- `syn::Index::from(n)`: call-site literal
 
+/-- A field name in a destructuring pattern: a tuple index is stamped with the span of the access it was written as. -/
+def FieldName.toksAt (s : Sp) : FieldName → Toks
+  | .ident i => [⟨.plain i.name, i.sp⟩]
+  | .index n => tq s (ToString.toString n)
+
 def Name.toks : Name → Toks
   | .field (.ident i) => [⟨.plain ("__assert_struct_field_" ++ i.unraw), i.sp⟩]  -- keeps the field's span
   | n => tq cs n.render                                -- `format_ident!` / `quote!`: call site
@@ -112,9 +117,9 @@ def Code.toks (value : Toks) : Code → Toks
     tq sp "# [ allow ( unreachable_patterns ) ] match &" ++ v.toks value ++ tq sp "{" ++ path.toks ++
       tq sp "(" ++ sepBy (tq sp ",") (binders.map Binder.toks) ++ tq sp ") = > {" ++ body.toks value ++
       tq sp "} , _ = > {" ++ push.toks value ++ tq sp "} }"
-  | .structNamed sp v path fields rest body push =>
+  | .structNamed sp v path fields fsps rest body push =>
     tq sp "# [ allow ( unreachable_patterns ) ] match &" ++ v.toks value ++ tq sp "{" ++ path.toks ++
-      tq sp "{" ++ sepBy (tq sp ",") (fields.map fun f => f.toks ++ tq sp ":" ++ (Name.field f).toks) ++
+      tq sp "{" ++ sepBy (tq sp ",") ((fields.zip fsps).map fun fs => fs.1.toksAt fs.2 ++ tq sp ":" ++ (Name.field fs.1).toks) ++
       (if !rest then [] else if fields.isEmpty then tq cs ". ." else tq cs ", . .") ++
       tq sp "} = > {" ++ body.toks value ++ tq sp "} , _ = > {" ++ push.toks value ++ tq sp "} }"
   | .tuple v binders body =>
